@@ -216,3 +216,13 @@ def native_limiter_fresh_window_lost_at_completion(case, mismatch):
 
 
 PREDICATES['native_limiter_fresh_window_lost_at_completion'] = native_limiter_fresh_window_lost_at_completion
+
+
+def race_loser_teardown_panics_during_subscription(case, mismatch):
+    """Race-family operator; the first source emits while a later source is being subscribed (sync kind V), and the teardown of that later
+    source - the loser the operator unsubscribes on the spot - is the one that panics"""
+    m = case.get('m') or {}
+    return m.get('op') == 'Race' and case.get('synck') == 'V' and case.get('panic') == case.get('sync') and case.get('panic', 0) > 0
+
+
+PREDICATES['race_loser_teardown_panics_during_subscription'] = race_loser_teardown_panics_during_subscription
